@@ -25,7 +25,7 @@ pub fn spec() -> Spec {
         case_cap_s: |t| t.pick(900, 14400),
         rule: "one case per (input D-set, renumbering); each case is explored under EVERY schedule of the hash-order choice point in simplify::network_cut with at most B deviations from 'first candidate' (G3), every schedule executed twice. Inputs: (a) pseudo_toroidal_cover of every admissible 3-dimensional symbol of size <= M that has one and of the 20 corpus symbols; (b) manifold tilings with finite fundamental group: universal covers and central quotients of the Coxeter groups [3,3,3], [4,3,3] ([3,4,3] thorough) built by the reference Todd-Coxeter, every entry of covers(s, |G|) for {3,3,3} ({4,3,3} thorough) that the reference model accepts as a branch-free manifold tiling, and the manifold entries of covers(s, |G|) for EVERY 3-dimensional symbol of size <= 2 with spherical tiles and vertex figures (branching 1..6) whose orbifold group has order <= 200 (thorough 1200) by the reference Todd-Coxeter (lens spaces and other space forms); (c) each input under 9 systematic renumberings. Oracle: input validity by the reference model (complete, branch-free, commuting, every tile and vertex figure loopless, bipartite, V-E+F = 2); a returned D-set is valid in the same sense; for (b) and corpus covers a connected result has the same H1 (textbook presentation + invariant factors) and the same number of subgroup classes of index 2, 3 (crate presentation + coset_tables, validated by C09/C12) as the input; on pseudo-toroidal covers no panic, a connected result has one tile, one vertex and no edge/face/tile of degree 2; for the corpus the isomorphism class of the minimal quotient of the result (reference model) is the same for every renumbering and schedule. Non-trivial = simplify changes the input.",
         assumptions: &["the choice hook explores exactly the behaviours production code can show: every hash order makes one of the sorted candidates first, and every candidate is first for some order", "pseudo_toroidal_cover / covers supply inputs only; every input is validated by the reference model before use"],
-        bounds: |t| json!({"admissible_max_size": t.pick(3, 4), "choice_deviation_bound": 1, "choice_deviation_bound_2_on_inputs_up_to_chambers": t.pick(0, 96), "renumberings": t.pick(json!({"corpus": "identity + reverse at bound 1", "other pseudo-toroidal covers": "identity at bound 1, reverse at bound 0", "finite": "identity + shuffle at bound 1"}), json!(9)), "determinism_replay_every_nth_schedule": t.pick(5, 1), "subgroup_class_index": 3}),
+        bounds: |t| json!({"admissible_max_size": t.pick(3, 4), "choice_deviation_bound": 1, "choice_deviation_bound_2_on_inputs_up_to_chambers": t.pick(json!(24), json!("72, and 96 for the corpus covers as given")), "renumberings": t.pick(json!({"corpus": "identity + reverse at bound 1", "other pseudo-toroidal covers": "identity at bound 1, reverse at bound 0", "finite": "identity + shuffle at bound 1"}), json!(9)), "determinism_replay_every_nth_schedule": t.pick(5, 1), "subgroup_class_index": 3}),
     }
 }
 
@@ -133,7 +133,8 @@ fn check_unit(ctx: &mut Ctx, inp: &Input, rname: &str, p: &[usize], ref_key: &Op
     let h1_in = if inp.rigid { h1(&t) } else { None };
     let prof_in = if inp.rigid { subgroup_profile(&t) } else { None };
     // quick tier: the second renumbering of a non-corpus pseudo-toroidal cover is run under the default schedule only
-    let bound = if t.n <= ctx.tier.pick(0, 96) { 2 } else if !ctx.tier.is_thorough() && inp.ptc && !inp.corpus && rname != "identity" { 0 } else { 1 };
+    let b2max = std::env::var("VERIF_C16_B2MAX").ok().and_then(|v| v.parse::<usize>().ok()).unwrap_or(ctx.tier.pick(24, 72));
+    let bound = if t.n <= b2max || (ctx.tier.is_thorough() && t.n <= 96 && inp.corpus && rname == "identity") { 2 } else if !ctx.tier.is_thorough() && inp.ptc && !inp.corpus && rname != "identity" { 0 } else { 1 };
     let mut results: Vec<(Vec<usize>, SimpOut)> = vec![];
     let verify_every = ctx.tier.pick(5, 1);
     let stats = g3::explore_with(bound, verify_every, &|| run_simplify(&t), &mut |run| {
@@ -143,6 +144,7 @@ fn check_unit(ctx: &mut Ctx, inp: &Input, rname: &str, p: &[usize], ref_key: &Op
     ctx.states += stats.runs;
     ctx.transitions += stats.runs;
     ctx.traces += stats.runs;
+    ctx.add(&format!("schedules_bound{}_chambers{:04}", bound, t.n), stats.runs as i64);
     ctx.max("choice_points_max", stats.choice_points_max as i64);
     ctx.max("alternatives_max", stats.alternatives_max as i64);
     ctx.add("schedules_run", stats.runs as i64);
@@ -279,6 +281,17 @@ fn run(ctx: &mut Ctx) {
         let full = inp.corpus || rname == "identity" || !inp.ptc || tier.is_thorough();
         std::cmp::Reverse(if full { inp.s.n * inp.s.n } else { inp.s.n })
     });
+    if std::env::var("VERIF_LIST_UNITS").is_ok() {
+        // diagnostic: the size profile of the work list (no exploration)
+        if ctx.shard == 0 {
+            let mut hist: std::collections::BTreeMap<usize, usize> = Default::default();
+            for (k, _, _) in &units {
+                *hist.entry(list[*k].s.n).or_default() += 1;
+            }
+            eprintln!("C16 units by chamber count: {:?}", hist);
+        }
+        return;
+    }
     let mut ref_keys: Vec<Option<Option<RS>>> = vec![None; list.len()];
     for (k, rname, p) in units {
         if ctx.take() {
@@ -294,6 +307,7 @@ fn run(ctx: &mut Ctx) {
             check_unit(ctx, inp, &rname, &p, &rk);
             let fam = if inp.corpus { "corpus" } else if inp.ptc { "ptc" } else { "finite" };
             ctx.add(&format!("cpu_us_{}", fam), t0.elapsed().as_micros() as i64);
+            ctx.add(&format!("cpu_ms_chambers{:04}", inp.s.n), t0.elapsed().as_millis() as i64);
         }
     }
     if ctx.nviolations() == 0 {
